@@ -52,7 +52,9 @@ def handleDS (st : St) (n : Nat) (toks : List String) : Result := Id.run do
   let mputs := ";".intercalate (putsF.map (fun p => match p with
     | none => "-"
     | some p => s!"{hx p.path}:PUT:{sha8 p.body}"))
-  let merr := if errsF == 0 then "-" else s!"failed_to_distribute_{errsF}_out_of_{logs.length}_logs"
+  -- only whether an error is reported is compared: its wording is not part of any property
+  let ierr := if ierr == "-" then "-" else "error"
+  let merr := if errsF == 0 then "-" else "error"
   if mputs != iputs then
     ok := false
     outs := outs ++ [s!"DIVERGE {n} DS field=puts model={mputs.take 400} impl={iputs.take 400}"]
@@ -107,9 +109,9 @@ def handleDS (st : St) (n : Nat) (toks : List String) : Result := Id.run do
         st := r.st; outs := outs ++ r.out
       if !(valid && (d == "200" || d == "redir307")) then expFail := expFail + 1
     | _, _, _, _ => pure ()
-  let expErr := if expFail == 0 then "-" else s!"failed_to_distribute_{expFail}_out_of_{logs.length}_logs"
-  if ierr != expErr then
-    let r := fail st n "C15" s!"overall result {ierr} does not report the failures ({expErr})"
+  let expErr := if expFail == 0 then "-" else "error"
+  if (if ierr == "-" then "-" else "error") != expErr then
+    let r := fail st n "C15" s!"overall result ({if ierr == "-" then "no error" else "an error"}) does not report the failures ({expFail} of {logs.length} logs failed)"
     st := r.st; outs := outs ++ r.out
   return { st, out := outs }
 
